@@ -270,6 +270,11 @@ def run(ctx):
                     o.val is not None and T in txt(o.val)]
             if not used and bad_pass is None:
                 bad_pass = (p, joins[0])
+    from rules.common import check_no_truthiness as _cnt
+    jinit = prog.func('jsonutils.JSONLIterator.__init__')
+    if 'rel_seek' not in jinit.params:
+        raise AnalysisError('anchor vanished: parameter rel_seek of JSONLIterator.__init__')
+    _cnt(ctx, jinit, 'rel_seek', why='rel_seek=0.0 means "from the start of the file"')
     # T9.sync: a size taken from the file descriptor (os.fstat / os.stat) does not see data still in the file object's write
     # buffer; where the position / size of the user's file object is derived from it, a flush of that object precedes it on
     # every path (otherwise reverse reading starts before the newest records while forward reading sees them)
